@@ -24,6 +24,7 @@ import (
 	"net/http/httputil"
 	"net/url"
 	"slices"
+	"strings"
 	"time"
 
 	"github.com/rs/zerolog"
@@ -134,8 +135,9 @@ func (r *requestContext) rewriteRequest(targetURL *url.URL) func(req *httputil.P
 		// and have not been dropped
 		forwardedHost := proxyReq.In.Header.Get("X-Forwarded-Host")
 		forwardedProto := proxyReq.In.Header.Get("X-Forwarded-Proto")
-		forwardedFor := proxyReq.In.Header.Get("X-Forwarded-For")
-		forwarded := proxyReq.In.Header.Get("Forwarded")
+		// both are list based fields, which may be spread over multiple field lines (RFC 9110, section 5.3)
+		forwardedFor := strings.Join(proxyReq.In.Header.Values("X-Forwarded-For"), ", ")
+		forwarded := strings.Join(proxyReq.In.Header.Values("Forwarded"), ", ")
 		proto := x.IfThenElse(proxyReq.In.TLS != nil, "https", "http")
 		clientIP := httpx.IPFromHostPort(r.req.RemoteAddr)
 
